@@ -33,8 +33,9 @@ type c20Result = pm.Result
 
 // ---- explorer side
 type c20Case struct {
-	P       c20Params `json:"params"`
-	Actions []string  `json:"actions,omitempty"`
+	P       c20Params      `json:"params"`
+	Actions []string       `json:"actions,omitempty"`
+	Real    *pm.RealParams `json:"real_worker_scenario,omitempty"`
 }
 
 func c20RunSub(p c20Params) (c20Result, error) {
@@ -47,11 +48,14 @@ func c20RunSub(p c20Params) (c20Result, error) {
 	cmd.SysProcAttr = &syscall.SysProcAttr{Setpgid: true}
 	var out strings.Builder
 	cmd.Stdout = &out
+	cmd.WaitDelay = 2 * time.Second // worker processes inherit stdout: do not wait for them
 	if err := cmd.Start(); err != nil {
 		return c20Result{}, err
 	}
 	done := make(chan error, 1)
 	go func() { done <- cmd.Wait() }()
+	// whatever happens, no worker process of this execution survives it
+	defer syscall.Kill(-cmd.Process.Pid, syscall.SIGKILL)
 	select {
 	case <-done:
 	case <-time.After(60 * time.Second):
@@ -64,6 +68,68 @@ func c20RunSub(p c20Params) (c20Result, error) {
 		return c20Result{}, fmt.Errorf("bad result from the execution process: %v (%q)", err, clipS(out.String(), 200))
 	}
 	return r, nil
+}
+
+// c20RunReal runs one real-worker scenario (real StartMaster + real StartWorker) in a fresh process.
+func c20RunReal(p pm.RealParams) (pm.RealResult, error) {
+	px := os.Getenv("VERIF_PMEXEC")
+	if px == "" {
+		return pm.RealResult{}, fmt.Errorf("pmexec binary not available")
+	}
+	arg, _ := json.Marshal(p)
+	cmd := exec.Command(px, "real", string(arg))
+	cmd.SysProcAttr = &syscall.SysProcAttr{Setpgid: true}
+	var out strings.Builder
+	cmd.Stdout = &out
+	cmd.WaitDelay = 2 * time.Second
+	if err := cmd.Start(); err != nil {
+		return pm.RealResult{}, err
+	}
+	done := make(chan error, 1)
+	go func() { done <- cmd.Wait() }()
+	defer syscall.Kill(-cmd.Process.Pid, syscall.SIGKILL)
+	select {
+	case <-done:
+	case <-time.After(120 * time.Second):
+		syscall.Kill(-cmd.Process.Pid, syscall.SIGKILL)
+		<-done
+		return pm.RealResult{}, fmt.Errorf("scenario did not finish within 120 s")
+	}
+	var r pm.RealResult
+	if err := json.Unmarshal([]byte(out.String()), &r); err != nil {
+		return pm.RealResult{}, fmt.Errorf("bad result: %v (%q)", err, clipS(out.String(), 200))
+	}
+	return r, nil
+}
+
+func c20RealScenarios(tier string) []pm.RealParams {
+	var out []pm.RealParams
+	var seqs []string
+	kinds := "FSH"
+	for _, a := range kinds {
+		seqs = append(seqs, string(a))
+		for _, b := range kinds {
+			seqs = append(seqs, string(a)+string(b))
+			if tier == "thorough" {
+				for _, c := range kinds {
+					seqs = append(seqs, string(a)+string(b)+string(c))
+				}
+			}
+		}
+	}
+	if tier != "thorough" {
+		seqs = append(seqs, "HSF", "HHF", "SHF", "FHS")
+	}
+	cfgs := [][2]int{{2, 3}}
+	if tier == "thorough" {
+		cfgs = append(cfgs, [2]int{1, 2}, [2]int{2, 2})
+	}
+	for _, c := range cfgs {
+		for _, s := range seqs {
+			out = append(out, pm.RealParams{Init: c[0], Max: c[1], Requests: s})
+		}
+	}
+	return out
 }
 
 var c20Kinds = []string{"busy", "idle", "timeout", "exit"}
@@ -96,7 +162,8 @@ func init() {
 	mc.Register(&mc.Check{
 		ID:    "C20",
 		Level: "model_checking",
-		Rule:  "E3 on the real prefork master with real child processes (the harness binary re-executed as a fake worker): configurations 1 <= init <= max <= M x every sequence of E environment events over {worker 0..W-1} x {reports BUSY, reports IDLE, times out (reports STOPPED and exits), exits}; within an execution the controller chooses at every step between delivering any pending hand-over (child registered / state report / child exit, released one at a time so the master's select never has two ready senders), letting any pending spawn proceed, and firing the next environment event; default = pending hand-overs first (FIFO), then spawns, then the event; every alternative within the deviation bound is explored (stateless DFS, one fresh OS process per execution). Invariants after every step: live worker processes (controller's registry of real processes) <= max-procs and the master's own child count <= max-procs; at quiescence (all workers idle, everything drained): live >= init-procs and the master's registry equals the set of live processes.",
+		Rule: "E3 on the real prefork master with real child processes (the harness binary re-executed as a fake worker): configurations 1 <= init <= max <= M x every sequence of E environment events over {worker 0..W-1} x {reports BUSY, reports IDLE, times out (reports STOPPED and exits), exits}; within an execution the controller chooses at every step between delivering any pending hand-over (child registered / state report / child exit, released one at a time so the master's select never has two ready senders), letting any pending spawn proceed, and firing the next environment event; default = pending hand-overs first (FIFO), then spawns, then the event; every alternative within the deviation bound is explored (stateless DFS, one fresh OS process per execution). Invariants after every step: live worker processes (controller's registry of real processes) <= max-procs and the master's own child count <= max-procs; at quiescence (all workers idle, everything drained): live >= init-procs and the master's registry equals the set of live processes. " +
+			"Plus a small enumerated (not exhaustive) real-worker family: the real master with the real StartWorker and a handler that can hang, free-running, for every sequence of <= 2 (thorough 3) requests over {fast, slow, hanging}: every request is answered exactly once by one worker (a hanging one gets its connection closed when its worker is terminated after --timeout), no worker reports BUSY twice without IDLE, the pool stays <= max-procs and returns to >= init-procs.",
 		Assumptions: []string{
 			"the controller waits for the consequence gates each action must produce (8 s failure detector, reported as a harness error, never as a violation)",
 			"kernel scheduling of real accept()/timeouts of real workers is not part of this exploration; Unix-socket listeners are not covered",
@@ -134,10 +201,36 @@ func init() {
 				}
 			}
 			idx := int64(0)
+			// ---- real-worker family (enumerated scenarios, free-running: not exhaustive)
+			for ri, rp := range c20RealScenarios(c.Tier) {
+				idx++
+				if !c.Mine(idx) {
+					continue
+				}
+				if c.Expired() {
+					c.Note("deadline hit in the real-worker family")
+					break
+				}
+				rpp := rp
+				c.Case(idx, func() json.RawMessage { return mc.J(c20Case{Real: &rpp}) })
+				r, err := c20RunReal(rp)
+				c.Eval(true)
+				c.Stat("real_worker_scenarios", 1)
+				if err != nil || r.Harness != "" {
+					c.Stat("harness_errors", 1)
+					c.Inexhaustive(fmt.Sprintf("real-worker scenario %d (%s) could not be evaluated: %v %s", ri, rp.Requests, err, r.Harness))
+					continue
+				}
+				if len(r.Violations) > 0 {
+					c.Fail(mc.Failure{Kind: "mismatch", Bucket: "real:" + strings.SplitN(r.Violations[0], ":", 2)[0], Case: mc.J(c20Case{Real: &rpp}),
+						Expected: "each request answered exactly once by one worker (a hanging one: connection closed when its worker is terminated), pool within bounds and back to init-procs when quiet",
+						Observed: strings.Join(r.Violations, "; ") + fmt.Sprintf(" | outcomes %v reports %v", r.Outcomes, r.Reports)})
+				}
+			}
 			for init := 1; init <= M; init++ {
 				for max := init; max <= M; max++ {
-					if c.Tier != "thorough" && (init == 3 || max == 1) {
-						continue // quick: (1,2) (1,3) (2,2) (2,3)
+					if c.Tier != "thorough" && (init == 3 || max == 1 || (init == 2 && max == 2)) {
+						continue // quick: (1,2) (1,3) (2,3)
 					}
 					for _, evs := range seqs {
 						idx++
@@ -161,7 +254,7 @@ func init() {
 							r, err := c20RunSub(p)
 							if err != nil {
 								c.Stat("harness_errors", 1)
-								c.Note("execution failed: " + err.Error())
+								c.Inexhaustive("an execution could not be evaluated: " + err.Error())
 								return
 							}
 							rec.Log = rec.Log[:0]
@@ -173,7 +266,7 @@ func init() {
 							c.StatMax("max_live_workers_seen", int64(r.MaxAlive))
 							if r.Harness != "" {
 								c.Stat("harness_errors", 1)
-								c.Note("harness: " + r.Harness)
+								c.Inexhaustive("an execution could not be evaluated: " + r.Harness)
 								return
 							}
 							if len(r.Violations) > 0 {
@@ -200,6 +293,17 @@ func init() {
 			var cs c20Case
 			if err := json.Unmarshal(raw, &cs); err != nil {
 				c.Fail(mc.Failure{Kind: "crash", Observed: err.Error()})
+				return
+			}
+			if cs.Real != nil {
+				r, err := c20RunReal(*cs.Real)
+				if err != nil {
+					fmt.Println("harness error on replay:", err)
+					return
+				}
+				if r.Harness == "" && len(r.Violations) > 0 {
+					c.Fail(mc.Failure{Kind: "mismatch", Case: raw, Observed: strings.Join(r.Violations, "; ")})
+				}
 				return
 			}
 			r, err := c20RunSub(cs.P)
